@@ -207,6 +207,9 @@ pub struct Env<'a> {
     pub ctx: &'a Ctx,
     /// Skip documents whose input has a listed known-finding shape (bulk search only).
     pub exclude: bool,
+    /// Which documents to fetch and judge.
+    pub judge_status: bool,
+    pub judge_metrics: bool,
     pub excluded_status: Cell<u64>,
     pub excluded_quote: Cell<u64>,
     pub excluded_backslash: Cell<u64>,
@@ -392,7 +395,8 @@ pub fn prop(env: &Env, case: &Case, info: &mut CaseInfo) -> Verdict {
         info.class("rtr_detailed");
     }
     let mut judged_any = false;
-    if status_excluded {
+    if !env.judge_status {
+    } else if status_excluded {
         env.excluded_status.set(env.excluded_status.get() + 1);
         info.class("status_not_judged(known shape)");
     } else {
@@ -406,7 +410,8 @@ pub fn prop(env: &Env, case: &Case, info: &mut CaseInfo) -> Verdict {
         }
         info.nt(st.iter().any(|s| interesting_for_status(s)));
     }
-    if metrics_excluded {
+    if !env.judge_metrics {
+    } else if metrics_excluded {
         let c = match lk.unwrap() {
             KEY_LABEL_QUOTE => &env.excluded_quote,
             KEY_LABEL_BACKSLASH => &env.excluded_backslash,
@@ -446,7 +451,7 @@ fn safe_uri(scheme: &'static str) -> BoxedStrategy<String> {
             let h: String = h.into_iter().collect();
             let m: String = m.into_iter().collect();
             match (scheme, tail) {
-                ("rsync", _) => format!("rsync://{}.test/{}/", h, m),
+                ("rsync", _) => format!("rsync://h{}.test/m{}/", h, m),
                 (_, 0) => format!("https://{}.test/{}/notification.xml", h, m),
                 (_, _) => format!("https://{}.test/{}", h, m),
             }
@@ -532,24 +537,26 @@ pub fn run(ctx: &Ctx, rep: &mut Report, replay: Option<&serde_json::Value>) {
     log::set_max_level(log::LevelFilter::Trace);
     let kit = Kit::new();
     let rt = runtime();
-    let env = Env { kit: &kit, rt: &rt, ctx, exclude: true, excluded_status: Cell::new(0), excluded_quote: Cell::new(0), excluded_backslash: Cell::new(0), excluded_newline: Cell::new(0) };
+    let env = Env { kit: &kit, rt: &rt, ctx, exclude: true, judge_status: true, judge_metrics: true, excluded_status: Cell::new(0), excluded_quote: Cell::new(0), excluded_backslash: Cell::new(0), excluded_newline: Cell::new(0) };
     if let Some(v) = replay {
         let t: Tagged<Case> = serde_json::from_value(v.clone()).expect("replay");
+        let env = Env { judge_status: t.sub != "directed-metrics", ..env };
         run_case(ctx, rep, &t.sub, &t.case, |c, i| prop(&env, c, i));
         return;
     }
     // directed representatives: one per known key, plus neighbours that must pass
-    let all = Env { kit: &kit, rt: &rt, ctx, exclude: false, excluded_status: Cell::new(0), excluded_quote: Cell::new(0), excluded_backslash: Cell::new(0), excluded_newline: Cell::new(0) };
+    let all = Env { kit: &kit, rt: &rt, ctx, exclude: false, judge_status: true, judge_metrics: true, excluded_status: Cell::new(0), excluded_quote: Cell::new(0), excluded_backslash: Cell::new(0), excluded_newline: Cell::new(0) };
     let strict_env = |c: &Case, i: &mut CaseInfo| prop(&all, c, i);
     // status: a log message as produced from a remote error containing a control character
     run_case(ctx, rep, "directed", &directed("arin", "rsync: connection reset\tby peer\u{1b}[0m"), strict_env);
     run_case(ctx, rep, "directed", &directed("my \"own\" tal", "plain"), strict_env);
     run_case(ctx, rep, "directed", &directed("dir\\tal", "plain"), strict_env);
-    run_case(ctx, rep, "directed", &directed("two\nlines", "plain"), strict_env);
+    let metrics_only = Env { kit: &kit, rt: &rt, ctx, exclude: false, judge_status: false, judge_metrics: true, excluded_status: Cell::new(0), excluded_quote: Cell::new(0), excluded_backslash: Cell::new(0), excluded_newline: Cell::new(0) };
+    run_case(ctx, rep, "directed-metrics", &directed("two\nlines", "plain"), |c, i| prop(&metrics_only, c, i));
     // neighbours: quotes and backslashes in a log message only (status must escape them, /metrics does not render them)
     run_case(ctx, rep, "directed", &directed("apnic", "server said \"no\" at C:\\path"), strict_env);
     run_case(ctx, rep, "directed", &directed("läcnic — ✓ {x=1}, #tag", "non-ascii ünïcödé 😀"), strict_env);
-    run_prop(ctx, rep, "docs", ctx.tier.pick(1500, 40_000), case_strategy(), |c, i| prop(&env, c, i));
+    run_prop(ctx, rep, "docs", ctx.tier.pick(12_000, 300_000), case_strategy(), |c, i| prop(&env, c, i));
     for (k, n) in [(KEY_STATUS_CTL, env.excluded_status.get()), (KEY_LABEL_QUOTE, env.excluded_quote.get()), (KEY_LABEL_BACKSLASH, env.excluded_backslash.get()), (KEY_LABEL_NEWLINE, env.excluded_newline.get())] {
         for _ in 0..n {
             rep.exclude_known(k);
